@@ -1490,10 +1490,49 @@ func (r *RigS) taskSelecting(tgt int, c *SColl) string {
 	for _, id := range SortedKeys(r.st.Tasks) {
 		t := r.st.Tasks[id]
 		if t.Spec != nil && t.Spec.tgt() == tgt && specNames(t.Spec, c.DB, c.Name) {
+			// a task that names the collection owns it; a wildcard task on the same downstream leaves it out
+			if owner != "" && r.st.Tasks[owner].Spec.Coll != "*" && t.Spec.Coll == "*" {
+				continue
+			}
 			owner = id
 		}
 	}
 	return owner
+}
+
+// barrierSplitByStop: the shards' drop messages of a partition were delivered on both sides of a stop of the task (an
+// operator pause, or the end of an incarnation): some shard delivered its message before the stop and never again after it
+// (its checkpoint had passed the message), while another shard had not delivered its message before the stop. The barrier
+// that counted the first shard was closed by the stop; the barrier set up afterwards waits for that shard in vain.
+func (r *RigS) barrierSplitByStop(owner string, tgt int, c *SColl, pid int64) bool {
+	before := func(a, b [2]int) bool { return a[0] < b[0] || (a[0] == b[0] && a[1] < b[1]) }
+	type stop struct{ from, to [2]int } // the stop took effect somewhere between these two points
+	var stops []stop
+	for inc := 1; inc <= r.plan.Incarnation; inc++ {
+		stops = append(stops, stop{[2]int{inc, -1}, [2]int{inc, -1}})
+	}
+	for _, o := range r.st.OpLog {
+		if o.K == "pause" && o.Task == owner && o.Code == 200 {
+			stops = append(stops, stop{[2]int{o.Inc, o.Issued}, [2]int{o.Inc, o.Step}})
+		}
+	}
+	for _, t := range stops {
+		early, late := false, false
+		for sh := 0; sh < c.Shard; sh++ {
+			k := fmt.Sprintf("%d|%d|%d|p%d", tgt, c.ID, sh, pid)
+			last, have := r.st.DropSeenLast[k]
+			if have && before(last, t.to) {
+				early = true // every delivery of this shard's message came before the stop was complete
+			}
+			if !have || !before(last, t.from) {
+				late = true // this shard delivers its message (again) after the stop began
+			}
+		}
+		if early && late {
+			return true
+		}
+	}
+	return false
 }
 
 // noteDropRequests looks at the downstream requests made since the last step: for every drop-collection request it
@@ -1617,6 +1656,11 @@ func (r *RigS) checkDrops(tasks map[string]*meta.TaskInfo, sn server.VerifSnapsh
 					cls = "_after_restamped_time_skip"
 				}
 			}
+			if _, ok := r.st.Discarded[fmt.Sprintf("%s|DropCollection|%d|0", owner, c.ID)]; ok {
+				// the request had left the reader (which remembers the collection as dropped from then on) when the task was
+				// paused; the event loop threw it away as a left-over of a task that is not running
+				cls = "_request_discarded_at_pause"
+			}
 			s.Probe("S_drop_liveness_checked")
 			if r.st.SDK[tgt].Colls[c.DB+"/"+c.Name] != nil {
 				s.Violate("C04", "S_drop_missing"+cls, "downstream %d: collection %s (%d) is dropped at the source (drop message published on every shard), its task %s is Running and idle, but the collection still exists downstream (%d drop request(s) so far)", tgt, c.Name, c.ID, owner, len(reqs))
@@ -1720,6 +1764,12 @@ func (r *RigS) checkPartitionDrops(tasks map[string]*meta.TaskInfo, sn server.Ve
 					if r.st.DropSkipped[fmt.Sprintf("%d|%d|%d|p%d", tgt, c.ID, sh, pid)] {
 						cls = "_after_restamped_time_skip"
 					}
+				}
+				if _, ok := r.st.Discarded[fmt.Sprintf("%s|DropPartition|%d|%d", owner, c.ID, pid)]; ok {
+					cls = "_request_discarded_at_pause"
+				}
+				if cls == "" && r.barrierSplitByStop(owner, tgt, c, pid) {
+					cls = "_barrier_split_by_stop"
 				}
 				s.Probe("S_partition_drop_liveness_checked")
 				if dc := r.st.SDK[tgt].Colls[c.DB+"/"+c.Name]; dc != nil && dc.Parts[pname] != nil {
